@@ -13,3 +13,6 @@ if ! cmp -s "$V/coq/gen/Gen.v.new.$$" "$V/coq/gen/Gen.v" 2>/dev/null; then mv "$
 # lock / channel skeletons of the core packages (gotrans locktrace): coq/gen/GenLocks.v
 "$V/work/bin/gotrans" locktrace "$REPO" "$V/gotrans/locks.json" "$V/coq/gen/GenLocks.v.new.$$"
 if ! cmp -s "$V/coq/gen/GenLocks.v.new.$$" "$V/coq/gen/GenLocks.v" 2>/dev/null; then mv "$V/coq/gen/GenLocks.v.new.$$" "$V/coq/gen/GenLocks.v"; else rm -f "$V/coq/gen/GenLocks.v.new.$$"; fi
+# call-order skeletons (gotrans locktrace in calltrace mode, labels in gotrans/order.json): coq/gen/GenOrder.v
+"$V/work/bin/gotrans" locktrace "$REPO" "$V/gotrans/order.json" "$V/coq/gen/GenOrder.v.new.$$"
+if ! cmp -s "$V/coq/gen/GenOrder.v.new.$$" "$V/coq/gen/GenOrder.v" 2>/dev/null; then mv "$V/coq/gen/GenOrder.v.new.$$" "$V/coq/gen/GenOrder.v"; else rm -f "$V/coq/gen/GenOrder.v.new.$$"; fi
